@@ -13,7 +13,9 @@ EVAL_FILES = ["src/eval.rs", "src/env.rs", "src/values.rs", "src/garden_type.rs"
 # Formatting / message construction: opaque, no side effects (DESIGN 3.1, abstraction (3)).
 OPAQUE_FNS = ["format_type_error", "format_type_error_with_suggestion", "display", "display_unless_unit",
               "as_ide_string", "as_string", "most_similar_var", "most_similar", "type_representation",
-              "format_exception_with_stack", "top_frame_name", "describe_read_error", "join_with_and"]
+              "format_exception_with_stack", "top_frame_name", "describe_read_error", "join_with_and",
+              # type-hint resolution walks hash maps of type definitions: opaque result, no machine-state effect
+              "Type::from_hint", "Type::from_value", "Type::from_hints"]
 
 _prog_cache = {}
 
